@@ -22,7 +22,7 @@ RULE = (
     "geometry; (b) blocked/mixed space or >= 2 terms; (c) tolerance looser than default; (d) always; distinct by spec hash."
 )
 P_SUMFACT = {"cells": ["quadrilateral", "hexahedron"], "measures": ["dx"], "tp": True, "maxdeg": 3, "max_integrals": 3, "depth": 1,
-             "manifold": 0.0, "nonaffine": 0.5, "min_qdeg": 2, "max_qdeg": 4, "p_scheme": 0.1, "p_vertex": 0.03, "ncoef": (0, 2), "ids": "few"}
+             "manifold": 0.0, "nonaffine": 0.5, "min_qdeg": 2, "max_qdeg": 4, "p_scheme": 0.1, "p_vertex": 0.03, "ncoef": (0, 2), "ids": "few", "p_tp_sibling": 0.5}
 P_DIAG = {"cells": ["interval", "triangle", "quadrilateral", "tetrahedron", "prism"], "measures": ["dx", "dx", "ds", "dS"], "arities": [2], "same_args": True, "max_integrals": 3, "depth": 1, "maxdeg": 2,
           "max_qdeg": 3, "ids": "few", "p_scheme": 0.0, "p_vertex": 0.0}
 P_TOL = {"measures": ["dx", "ds"], "max_integrals": 2, "depth": 2, "maxdeg": 3}
@@ -211,7 +211,7 @@ def shard(shard, nshards, n, tier, seed):
     res = ShardResult()
     known = ["C10:sumfact-raises:cell-integral-without-tensor-rule"]
     with scratch(f"vf-c10-{shard}-") as wd:
-        drive(strategies.form_specs(P_SUMFACT), lambda s: family_sumfact(s, wd), n, (PROP, seed, shard, "a"), res, shrink_calls=30)
+        drive(strategies.form_specs(P_SUMFACT), lambda s: family_sumfact(s, wd), n + (n + 1) // 2, (PROP, seed, shard, "a"), res, shrink_calls=30)
         drive(strategies.form_specs(P_DIAG), lambda s: family_diagonal(s, wd), n, (PROP, seed, shard, "b"), res, shrink_calls=30)
         tol_cases = st.tuples(strategies.form_specs(P_TOL), st.sampled_from(TOLS), st.sampled_from(TOLS))
         drive(tol_cases, lambda c: family_tolerance(c, wd), n, (PROP, seed, shard, "c"), res, shrink_calls=30)
